@@ -131,6 +131,26 @@ func ntWorker(dir string, cases []ntCase, held bool) (fs []ntFinding, trivial in
 		case "host":
 			resp = srv.Get(s.Addr, "/c", text)
 			wire, decoded = text, text
+		case "attached-id":
+			// the client text is the ID of the stream that is attached; the refused request has a plain one
+			first, err := hold(s.Addr, "/i/"+wire)
+			if err != nil {
+				return fs, trivial, err
+			}
+			if _, ok := s.WaitLine(n0, 2*time.Second, func(cl opshell.CLine) bool { return strings.Contains(cl.Line, "connected") }); !ok {
+				// net/http refused the target: nothing attached, nothing to report
+				first.Close()
+				trivial++
+				continue
+			}
+			n0 = s.NLines()
+			conn, err = hold(s.Addr, "/o/plain-other-id")
+			if err != nil {
+				first.Close()
+				return fs, trivial, err
+			}
+			s.WaitLine(n0, 3*time.Second, func(cl opshell.CLine) bool { return strings.Contains(cl.Line, "Rejected") })
+			first.Close()
 		case "id":
 			target := "/i/" + wire
 			if c.Action == "output-connected" || c.Action == "refused-wrong-id" {
@@ -251,7 +271,7 @@ func noticesCampaign(r *ev.Run) {
 			addrActions[c.Action] = true // one request per action, from a zoned address
 			continue
 		}
-		if c.Action == "refused-duplicate" || c.Action == "refused-wrong-id" {
+		if (c.Action == "refused-duplicate" || c.Action == "refused-wrong-id") && c.Field != "attached-id" {
 			heldCases = append(heldCases, c)
 		} else {
 			idle = append(idle, c)
